@@ -861,10 +861,10 @@ class Fxp():
             # val_dtype determination
             _n_word_max_ = min(_n_word_max, 64)
             _use_pyint = np.max(val) >= 2**_n_word_max_ or np.min(val) < -2**_n_word_max_ or self.n_word >= _n_word_max_
-            if not _use_pyint and isinstance(conv_factor, int) and val.dtype != np.uint64 and \
+            if not _use_pyint and isinstance(conv_factor, int) and (val.dtype != np.uint64 or not raw) and \
                 (val.dtype == object or np.issubdtype(val.dtype, np.integer)):
                 # integer values whose scaled magnitude does not fit in int64 are computed with Python integers
-                # (an int64 product would wrap silently); uint64 keeps its reinterpretation as int64
+                # (an int64 product would wrap silently); raw uint64 codes keep their reinterpretation as int64
                 _abs_max = max(abs(int(np.max(val))), abs(int(np.min(val))))
                 _use_pyint = conv_factor >= 2**(_n_word_max_ - 1) or _abs_max * conv_factor >= 2**(_n_word_max_ - 1)
 
